@@ -37,6 +37,9 @@ CHECKS["C10"] = ("exploration", "exhaustive float32 sweep (thorough) / exponent 
 CHECKS["C04"] = ("exploration", "bounded-exhaustive enumeration of a reflect-built type universe x value domains x option sets against the round-trip law",
   "Every type of the universe (depth 1 quick / 2 thorough) x every value of its domain x 18 symmetric option sets (default, StringifyNumbers, nil-as-null, OmitZeroStructFields, whitespace/escape, DefaultOptionsV1, each v1 option singly); every format tag on its type over boundary-dense duration/time/bytes domains; 65/130-field structs; float32: all 2^32 bit patterns (thorough). Unmarshal accepts Marshal(v), re-marshal reproduces the bytes (fixed point after one round with omit options), decoded value equals v modulo nil/empty with exact float bits and time.Equal (+ offset where the format carries it).",
   "Trusted: Go reflection, time and math as oracles; the law itself needs no reference model.", "2/C04")
+CHECKS["C17"] = ("exploration", "exhaustive enumeration of method-receiver assignments x positions x function lists against a reference dispatcher, and of every user-code script up to a length bound against the reference coder models",
+  "Generated named types for all 3^4 marshal-side and 3^3 unmarshal-side receiver assignments on 4 underlying kinds x 14 (7) position kinds x caller function lists: logged calls and output equal the documented dispatch order (pointer receivers on non-addressable values, never on nil, untouched ErrUnsupported falls through). Every script of <=L coder operations x return kinds x error handling x positions x carriers: success iff exactly one value was written/read, otherwise an error (never silent success); caller options visible inside the call; Reset panics. Function lists over built-in types in every order and join nesting, reached through interfaces.",
+  "Trusted: reference dispatcher and coder models written from the package documentation. Cases run sequentially (generated types log through package-level state).", "2/C17")
 NOT_YET = {}
 def main():
     props=[json.loads(l)["id"] for l in open("properties.jsonl")]
